@@ -3,13 +3,14 @@ import JunoModel.C04.Model
 /-!
 Line-protocol driver for the C04 model (`lake build c04drv`).
 
-  cfg <legacy> <zeroWriteFix> <dropReopenedWindow> <removeImplicitClasses> <legacyPurgeOnUpdate> <window>
+  cfg <legacy> <zeroWriteFix> <dropReopenedWindow> <removeImplicitClasses> <legacyPurgeOnUpdate> <legacyDedupDeclared> <window>
       (0/1 flags, hex window)
   new <node>
   store <node> n=.. h=.. p=.. v=.. bl=.. pay=.. [tx=hash:msg|-]* [dep=a:c]* [rep=a:c]* [non=a:n]*
         [sto=a:k:v]* [d0=c]* [d1=c:casm]* [mig=c:casm]* [cls=c:s|c:v2]*
       -> "ok <root-id>" | "err:<Err>"      (roots are computed as Finalise does; the id numbers
                                              distinct roots in order of first appearance)
+  storewrongroot <node> <same tokens>      -> the same block with a wrong new state root: "err:rootNew" expected
   revert <node>                            -> "ok" | "err:<Err>"
   dump <node> <family>                     -> canonical content of one bucket family
 All numbers are hex without prefix.
@@ -23,7 +24,7 @@ structure DState where
 
 def DState.init : DState :=
   { cfg := { legacy := false, zeroWriteFix := true, dropReopenedWindow := false, removeImplicitClasses := false,
-             legacyPurgeOnUpdate := false, window := 8192 },
+             legacyPurgeOnUpdate := false, legacyDedupDeclared := false, window := 8192 },
     nodes := [], roots := [] }
 
 def getNode (s : DState) (id : String) : Option Node := (s.nodes.find? (·.1 == id)).map (·.2)
@@ -140,14 +141,14 @@ def flag? (s : String) : Option Bool := if s == "1" then some true else if s == 
 
 def step (s : DState) (line : String) : DState × String :=
   match words line with
-  | ["cfg", a, b, c, d, e, w] =>
-    match flag? a, flag? b, flag? c, flag? d, flag? e, hexToNat? w with
-    | some a, some b, some c, some d, some e, some w =>
+  | ["cfg", a, b, c, d, e, g, w] =>
+    match flag? a, flag? b, flag? c, flag? d, flag? e, flag? g, hexToNat? w with
+    | some a, some b, some c, some d, some e, some g, some w =>
       if w == 0 then (s, "bad-op") else
       ({ cfg := { legacy := a, zeroWriteFix := b, dropReopenedWindow := c, removeImplicitClasses := d,
-                  legacyPurgeOnUpdate := e, window := w },
+                  legacyPurgeOnUpdate := e, legacyDedupDeclared := g, window := w },
          nodes := [], roots := [] }, "ok")
-    | _, _, _, _, _, _ => (s, "bad-op")
+    | _, _, _, _, _, _, _ => (s, "bad-op")
   | ["new", id] => (putNode s id Node.init, "ok")
   | ["copy", src, dst] =>
     match getNode s src with
@@ -161,6 +162,17 @@ def step (s : DState) (line : String) : DState × String :=
       | .ok nd' =>
         let (s1, rid) := rootId s b'.newRoot
         (putNode s1 id nd', s!"ok {hx rid}")
+      | .error e => (s, "err:" ++ errName e)
+    | _, _ => (s, "bad-op")
+  | "storewrongroot" :: id :: toks =>
+    -- the block with a new state root that is NOT the one the update produces (what a caller with a
+    -- corrupt state update hands to Store): must fail in the root verification inside the batch
+    match getNode s id, parseBlock toks with
+    | some nd, some b =>
+      let b' := withRoots s.cfg nd b
+      let wrong : Root := if b'.newRoot == Root.zero then Root.contractsOnly [(0, (0, 0))] [] else Root.zero
+      match store s.cfg nd { b' with newRoot := wrong } with
+      | .ok nd' => (putNode s id nd', "ok")
       | .error e => (s, "err:" ++ errName e)
     | _, _ => (s, "bad-op")
   | ["revert", id] =>
